@@ -25,7 +25,7 @@ ASSUMPTIONS = [
     'XML-illegal characters and the DOCTYPE line are set aside before parsing, as the statement says',
 ]
 FLOOR = {'quick': 500, 'thorough': 2500}
-SPACE = {'quick': '42 payloads x 73 sinks (42 element-text sinks, 9 attribute-value sinks, 5 command-line / file-name sinks); docformat resolution: own x sub-package x root-package declaration in {none, restructuredtext, plaintext, epytext} x 2 command-line formats, quoted raw directive as docstring', 'thorough': 'quick + all ordered pairs of 40 sinks x 2 payloads'}
+SPACE = {'quick': '46 payloads x 73 sinks (42 element-text sinks, 9 attribute-value sinks, 5 command-line / file-name sinks); docformat resolution: own x sub-package x root-package declaration in {none, restructuredtext, plaintext, epytext} x 2 command-line formats, quoted raw directive as docstring', 'thorough': 'quick + all ordered pairs of 40 sinks x 2 payloads'}
 JOB_TIMEOUT = 2300
 
 M = 'zqx1'
@@ -37,6 +37,8 @@ PAYLOADS = [
     'x`` `k <javascript:zqx1>`_ ``y', '` `k <javascript:zqx1>`_ `',
     'zqx1" onzqa1="1', "zqx1' onzqa1='1", 'zqx1"onzqa1="1', 'zqx1" onzqa1="1" x="',
     # whitespace-free break-outs of an attribute value that leave the page well-formed: close the tag, plant an element, re-open the same tag
+    # compatibility look-alikes of the metacharacters (fullwidth, small forms): text, whatever normalisation a page goes through
+    '\uff1czqx1\uff1et\uff1c\uff0fzqx1\uff1e', '\ufe64zqx1\ufe65t', '\uff02\uff1e\uff1czqx1 onzqa1\uff1d\uff021\uff02\uff1e', '\uff06lt;zqx1\uff06gt; \ufe60amp;',
     'sh"><zqx1>t</zqx1></pre><pre>', 'x"><zqx1/></a><a>', 'x"><zqx1/></span><span>', 'x"><zqx1/></div><div>', 'x"><zqx1/></code><code>', "x'><zqx1/></pre><pre>",
 ]
 DANGEROUS = ['"><zqx1 onzqa1="1">', 'x--<zqx1>y</zqx1>']
